@@ -90,7 +90,8 @@ func driveC12(args []string) error {
 	// aspect ratios that differ from the target's by a hair (well above rounding, far below one percent): the
 	// viewBox aspect must still be kept and the alignment fractions still applied to the remaining slack
 	for _, q := range [][4]int{{2100, 2101, 500, 500}, {2101, 2100, 500, 500}, {4000, 4001, 1600, 1600}, {4001, 4000, 1600, 1600},
-		{64, 64, 3840, 3839}, {64, 64, 3839, 3840}, {3000, 3001, 777, 777}, {16, 9, 1921, 1080}, {16, 9, 1920, 1081}, {1000, 999, 2047, 2047}} {
+		{64, 64, 3840, 3839}, {64, 64, 3839, 3840}, {3000, 3001, 777, 777}, {16, 9, 1921, 1080}, {16, 9, 1920, 1081}, {1000, 999, 2047, 2047},
+		{5000, 5001, 2500, 2500}, {5001, 5000, 2500, 2500}, {64, 64, 5000, 5001}, {64, 64, 5001, 5000}, {4500, 4499, 100, 100}, {3, 2, 7501, 5000}} {
 		for _, ax := range as {
 			for _, ay := range as {
 				vb4 := [4]int{0, 0, 4 * q[0], 4 * q[1]}
